@@ -124,6 +124,10 @@ def loop_begin(key, locs):
 def for_begin(key, it, locs):
     spec = LOOP_SPECS[tuple(key)]
     lp = _Loop(tuple(key), spec)
+    if isinstance(it, SymList) and getattr(spec, "as_set", False) and getattr(it, "_from_set", None) is not None:
+        # opt-in (`loop(...).as_set = True`): `for k in sorted(some_set)` enumerated as the set itself, in
+        # ARBITRARY order - an over-approximation of the sorted order, for invariants that do not need the order
+        it = it._from_set
     if isinstance(it, SymList):
         lp.seq = it.copy()
     elif isinstance(it, (list, tuple)):
@@ -154,6 +158,9 @@ def for_begin(key, it, locs):
     elif _range_bounds(it) is not None:
         # `for x in range(lo, hi)` (step 1): the virtual sequence lo, lo+1, .., hi-1; L.i counts iterations
         lp.seq = _RangeSeq(*_range_bounds(it))
+    elif _range_bounds_desc(it) is not None:
+        # `for x in range(hi, lo, -1)`: the virtual sequence hi, hi-1, .., lo+1
+        lp.seq = _RangeDescSeq(*_range_bounds_desc(it))
     else:
         raise OutOfReach(f"loop contract over iterable of type {type(it).__name__}")
     lp.i = 0
@@ -168,6 +175,40 @@ def _range_bounds(it):
     if type(it).__name__ == "_SymRange" and getattr(it, "step", None) == 1:
         return it.lo, it.hi
     return None
+
+
+def _range_bounds_desc(it):
+    """(start, stop) of a step -1 range()/symbolic range, else None"""
+    if isinstance(it, range):
+        return (it.start, it.stop) if it.step == -1 else None
+    if type(it).__name__ == "_SymRange" and getattr(it, "step", None) == -1:
+        return it.lo, it.hi
+    return None
+
+
+class _RangeDescSeq:
+    """what the loop cut needs of a SymList, for the integers start, start-1, .., stop+1"""
+    _elem = T.Int
+
+    def __init__(self, start, stop):
+        self.start, self.stop = start, stop
+
+    def copy(self):
+        return self
+
+    @property
+    def term(self):
+        return self
+
+    def __getitem__(self, idx):
+        return _t(self.start) - idx
+
+    def _len(self):
+        d = _t(self.start) - _t(self.stop)
+        return z3.If(d > 0, d, z3.IntVal(0))
+
+    def __sym_len__(self):
+        return mk_num(self._len())
 
 
 class _VecSeq:
